@@ -18,9 +18,14 @@ class Item:
     acex: G.AceX = None  # None for remarks
     remark: str = ""
 
-    def text(self, platform: str) -> str:
+    def text(self, platform: str, acl_type: str = "extended") -> str:
         if self.acex is None:
             return f"remark {self.remark}"
+        if acl_type == "standard":
+            x = self.acex
+            if x.proto != 0 or x.dst.label != "any" or x.sport.op or x.dport.op or x.flags or x.src.group:
+                raise ValueError(f"harness: {self.label} cannot be written as a standard entry")
+            return f"{x.action} {x.src.spellings(platform)[0][0]}" + (" log" if "log" in x.logs else "")
         return self.acex.text(platform)
 
     def rule(self) -> Rule:
@@ -35,11 +40,13 @@ def header(platform: str, name: str = "A", acl_type: str = "extended") -> str:
     return f"ip access-list {acl_type} {name}" if platform == "ios" else f"ip access-list {name}"
 
 
-def build_acl(items, platform: str, group_by: str = "", numbered: bool = False, **kwargs):
+def build_acl(items, platform: str, group_by: str = "", numbered: bool = False, acl_type="extended",
+              **kwargs):
     """Real Acl for a list of Items; group members attached; optionally resequenced 10,20,..."""
     from cisco_acl import Ace, Acl
 
-    text = header(platform) + "\n" + "\n".join(" " + it.text(platform) for it in items)
+    text = header(platform, acl_type=acl_type) + "\n" + \
+        "\n".join(" " + it.text(platform, acl_type) for it in items)
     acl = Acl(text, platform=platform, **kwargs)
     aces = [o for o in acl.items if isinstance(o, Ace)]
     want = [it for it in items if it.is_ace]
